@@ -1,6 +1,7 @@
 package main
 
 import (
+	"errors"
 	"fmt"
 	"strconv"
 	"strings"
@@ -27,13 +28,15 @@ const (
 type argKind int
 
 const (
-	argF1     argKind = iota // one Int field
-	argF3                    // Int, String, Int
-	argNS                    // Namespace + Int
-	argMut                   // Object(mutable marshaler) + Int
-	argSkip                  // zap.Skip(), Int, Int: a no-op field that is not last
-	argNilErr                // Int, zap.NamedError(k, nil) (= no-op), String
-	argAgain                 // the very slice object handed to the latest earlier With/WithLazy/WithOptions(Fields) step (a fresh [Int] if none)
+	argF1      argKind = iota // one Int field
+	argF3                     // Int, String, Int
+	argNS                     // Namespace + Int
+	argMut                    // Object(mutable marshaler) + Int
+	argSkip                   // zap.Skip(), Int, Int: a no-op field that is not last
+	argNilErr                 // Int, zap.NamedError(k, nil) (= no-op), String
+	argNSFail                 // Namespace, Object(marshaler that adds one member and then fails), Int
+	argArrFail                // Int, Array(marshaler that appends one element and then fails), String
+	argAgain                  // the very slice object handed to the latest earlier With/WithLazy/WithOptions(Fields) step (a fresh [Int] if none)
 	argNone
 )
 
@@ -100,6 +103,18 @@ var sliceSyms = []symbol{
 	{"AgainFields", opFieldsOpt, argAgain, ""},
 }
 
+// a field whose marshaler fails (documented: the partial value is kept and "<key>Error" is added)
+var failSyms = []symbol{
+	{"WithNSFail", opWith, argNSFail, ""},
+	{"WithArrFail", opWith, argArrFail, ""},
+	{"LazyNSFail", opWithLazy, argNSFail, ""},
+	{"LazyArrFail", opWithLazy, argArrFail, ""},
+	{"FieldsNSFail", opFieldsOpt, argNSFail, ""},
+	{"FieldsArrFail", opFieldsOpt, argArrFail, ""},
+}
+
+func isFailSym(s symbol) bool { return s.arg == argNSFail || s.arg == argArrFail }
+
 func isSliceSym(s symbol) bool { return s.arg == argSkip || s.arg == argNilErr || s.arg == argAgain }
 
 func isSepName(s symbol) bool { return s.op == opNamed && strings.Contains(s.nm, ".") }
@@ -111,6 +126,11 @@ func symByName(n string) (symbol, bool) {
 		}
 	}
 	for _, s := range sliceSyms {
+		if s.name == n {
+			return s, true
+		}
+	}
+	for _, s := range failSyms {
 		if s.name == n {
 			return s, true
 		}
@@ -165,12 +185,31 @@ func (m *mut) MarshalLogObject(enc zapcore.ObjectEncoder) error {
 	return nil
 }
 
+var errBoom = errors.New("boom")
+
+// failObj adds one member and then reports an error; failArr appends one element and then reports an error.
+type failObj struct{}
+
+func (failObj) MarshalLogObject(enc zapcore.ObjectEncoder) error {
+	enc.AddInt("k", 1)
+	return errBoom
+}
+
+type failArr struct{}
+
+func (failArr) MarshalLogArray(enc zapcore.ArrayEncoder) error {
+	enc.AppendInt(1)
+	return errBoom
+}
+
 const (
 	kInt = iota
 	kStr
 	kNS
 	kMut
-	kSkip // a no-op field (zap.Skip() / NamedError(k, nil)): renders nothing, an observer keeps it as given
+	kObjFail // Object with a failing marshaler: {"k":1} and "<key>Error":"boom"
+	kArrFail // Array with a failing marshaler: [1] and "<key>Error":"boom"
+	kSkip    // a no-op field (zap.Skip() / NamedError(k, nil)): renders nothing, an observer keeps it as given
 )
 
 // fspec is the reference model's view of one field.
@@ -192,6 +231,10 @@ func (f fspec) field() zap.Field {
 		return zap.String(f.key, f.s)
 	case kNS:
 		return zap.Namespace(f.key)
+	case kObjFail:
+		return zap.Object(f.key, failObj{})
+	case kArrFail:
+		return zap.Array(f.key, failArr{})
 	case kSkip:
 		if f.s == "nilerr" {
 			return zap.NamedError(f.key, nil)
@@ -223,6 +266,10 @@ func toSugar(fs []fspec) []interface{} {
 			out = append(out, zap.Namespace(f.key))
 		case kMut:
 			out = append(out, f.key, f.m)
+		case kObjFail:
+			out = append(out, f.key, failObj{})
+		case kArrFail:
+			out = append(out, f.key, failArr{})
 		case kSkip:
 			out = append(out, f.field())
 		}
@@ -252,6 +299,18 @@ func (r *runner) argFields(i int, a argKind, lazy bool) []fspec {
 		return []fspec{
 			{kind: kMut, key: "o" + strconv.Itoa(i), m: m, e: &evalRec{at: -1, lazy: lazy}, step: i},
 			{kind: kInt, key: p + "a", i: int64(100*i + 1), step: i},
+		}
+	case argNSFail:
+		return []fspec{
+			{kind: kNS, key: "n" + strconv.Itoa(i), step: i},
+			{kind: kObjFail, key: "o" + strconv.Itoa(i), step: i},
+			{kind: kInt, key: p + "a", i: int64(100*i + 1), step: i},
+		}
+	case argArrFail:
+		return []fspec{
+			{kind: kInt, key: p + "a", i: int64(100*i + 1), step: i},
+			{kind: kArrFail, key: "a" + strconv.Itoa(i), step: i},
+			{kind: kStr, key: p + "b", s: "s" + strconv.Itoa(i), step: i},
 		}
 	case argSkip:
 		return []fspec{
@@ -912,6 +971,10 @@ func (a *argRec) changed() string {
 						ok = ok && sp.kind == kStr && v == sp.s
 					case *mut:
 						ok = ok && sp.kind == kMut && v == sp.m
+					case failObj:
+						ok = ok && sp.kind == kObjFail
+					case failArr:
+						ok = ok && sp.kind == kArrFail
 					default:
 						ok = false
 					}
@@ -1038,6 +1101,20 @@ func renderExpected(b []byte, format int, name, msg string, fs []fspec) []byte {
 			b = append(b, colon...)
 			b = strconv.AppendInt(b, int64(f.e.at), 10)
 			b = append(b, '}')
+		case kObjFail, kArrFail:
+			if f.kind == kObjFail {
+				b = append(b, `{"k"`...)
+				b = append(b, colon...)
+				b = append(b, "1}"...)
+			} else {
+				b = append(b, "[1]"...)
+			}
+			b = append(b, comma...)
+			b = append(b, '"')
+			b = append(b, f.key...)
+			b = append(b, `Error"`...)
+			b = append(b, colon...)
+			b = append(b, `"boom"`...)
 		}
 	}
 	for ; open > 0; open-- {
@@ -1056,9 +1133,14 @@ func fieldString(f zapcore.Field) string {
 		return f.Key + "={"
 	case zapcore.SkipType:
 		return f.Key + "=<skip>"
+	case zapcore.ArrayMarshalerType:
+		return f.Key + "=failing-array"
 	case zapcore.ObjectMarshalerType:
 		if m, ok := f.Interface.(*mut); ok {
 			return fmt.Sprintf("%s=obj#%d", f.Key, m.id)
+		}
+		if _, ok := f.Interface.(failObj); ok {
+			return f.Key + "=failing-object"
 		}
 	}
 	return fmt.Sprintf("%s=?%v", f.Key, f)
@@ -1083,6 +1165,12 @@ func fieldsTree(dst *jsonx.Node, fs []fspec) {
 			o.Add("id", jsonx.N(strconv.Itoa(f.m.id)))
 			o.Add("v", jsonx.N(strconv.Itoa(f.e.at)))
 			cur.Add(f.key, o)
+		case kObjFail:
+			cur.Add(f.key, jsonx.O().Add("k", jsonx.N("1")))
+			cur.Add(f.key+"Error", jsonx.S("boom"))
+		case kArrFail:
+			cur.Add(f.key, jsonx.A(jsonx.N("1")))
+			cur.Add(f.key+"Error", jsonx.S("boom"))
 		}
 	}
 }
